@@ -47,7 +47,7 @@ quick   : 7 file sets (1-4 files x 3-6 HDUs; empty or image primary, a binary ta
           in all files, every per-file list if <= 40 else 40 seeded random ones; WCS key: none,
           ' ', every common scalar, 3 seeded per-file lists; routes load + cli_view for all,
           cli_multi_tan for scalars; tile_fits for <= 12 selections per TAN-grid set.
-thorough: 21 file sets incl. 14 seeded random layouts, lists up to 400 per set, 8 key lists,
+thorough: 27 file sets incl. 20 seeded random layouts, lists up to 400 per set, 8 key lists,
           tile_fits for <= 60 selections per set.
 Trusted: astropy.io.fits writer/reader and astropy.wcs used to write the files and to read
 the tiles back; values are float32-exact by construction.
@@ -580,7 +580,7 @@ def run(ctx):
     rng = ctx.rng
     descs = fixed_sets()
     if thorough:
-        descs += [random_set(rng, k) for k in range(14)]
+        descs += [random_set(rng, k) for k in range(20)]
     sets = [realise(d, rng) for d in descs]
     max_lists = 400 if thorough else 40
     n_keylists = 8 if thorough else 3
